@@ -63,7 +63,15 @@ def handle : Handler := fun op args impl =>
     if ph < 0 then some ⟨m, verdictOf (impl.startsWith "err") "byref-negative-phase-must-fail"⟩ else
     let ph := ph.toNat
     let v := match parseAl impl with
-      | none => if impl.startsWith "err" then "na" else "fail:unparsable"
+      | none =>
+        if impl.startsWith "err" then
+          -- "in frame 0 always returns a rectangular protein alignment": with a supported code, the reference among the
+          -- rows and at least one codon, an error is not an admissible answer
+          let L : Nat := match rows with | [] => 0 | r :: _ => r.2.length
+          if ph == 0 && (code == 0 || code == 1 || code == 2) && (findRow refName rows).isSome && L ≥ 3 &&
+              rows.all (fun r => r.2.length == L) then "fail:byref-frame0-must-return-an-alignment"
+          else "na"
+        else "fail:unparsable"
       | some (len, out) =>
         if !(code == 0 || code == 1 || code == 2) then "fail:byref-unknown-code-accepted" else
         let tbl := Spec.ncbi code.toNat
